@@ -24,6 +24,25 @@ class Unexpected(Exception):
     """The code raised something the adapter does not map to a result."""
 
 
+class Skip(Exception):
+    """The operation does not apply to this variant of the code (e.g. memory-mapping an empty file): not judged."""
+
+
+def wrap(fn):
+    """Decorator for adapter.apply: any exception the adapter did not map to a result is Unexpected."""
+    def inner(self, w, op):
+        try:
+            r = fn(self, w, op)
+        except (Timeout, Unexpected, Skip, tlc.MachineryError):
+            raise
+        except Exception as e:
+            raise Unexpected("%s raised %s: %s" % (op["op"], type(e).__name__, str(e)[:80]))
+        if r is None:
+            raise tlc.MachineryError("adapter: unknown op %r" % (op,))
+        return r
+    return inner
+
+
 def guarded(fn, seconds=2.0):
     def h(*a):
         raise Timeout()
@@ -105,6 +124,7 @@ def walk(g, adapter, ctx, name, max_nodes=200000, op_timeout=0.5, sig_fn=None, r
     spec_edges_hit = 0
     reported = 0
     frontier = 0
+    skipped = 0
     closer = getattr(adapter, "close", None)
 
     def run_path(path, op):
@@ -142,6 +162,9 @@ def walk(g, adapter, ctx, name, max_nodes=200000, op_timeout=0.5, sig_fn=None, r
                 pre, ret, post = obs, canon({"exc": "Timeout(non-terminating)"}), None
             except Unexpected as e:
                 pre, ret, post = obs, canon({"exc": str(e)}), None
+            except Skip:
+                skipped += 1
+                continue
             checked += 1
             ctx.case((obs, opc))
             if pre != obs:
@@ -175,7 +198,7 @@ def walk(g, adapter, ctx, name, max_nodes=200000, op_timeout=0.5, sig_fn=None, r
                 queue.append(nxt)
     stats = {"spec": name, "spec_states": len(g.states), "spec_edges": g.n_edges, "code_nodes": len(paths),
              "pairs_checked": checked, "spec_states_reached_by_code": len(spec_states_hit),
-             "spec_edges_taken_by_code": spec_edges_hit, "frontier_nodes_not_expanded": frontier}
+             "spec_edges_taken_by_code": spec_edges_hit, "frontier_nodes_not_expanded": frontier, "skipped_not_applicable": skipped}
     ctx.extra.setdefault("walks", []).append(stats)
     ctx.traces += checked
     if len(ctx.samples) < 4 and paths:
